@@ -7,6 +7,7 @@
 //   symmetry, positivity   symmetric smoother list, npre == npost
 //   contraction            rho(I - B A) < 1 (symmetric eigen-solver when B is symmetric, general otherwise)
 //   scaling                hierarchy of 2^k A gives B' with 2^k B' == B bitwise (ILUT excepted)
+#include <iomanip>
 #include "c02_common.hpp"
 
 using namespace vf;
@@ -16,19 +17,16 @@ static bool trace_on() { static bool v = env_flag("VF_C02_TRACE"); return v; }
 
 static void prop_cycle(Tape &t, Ctx &c) {
     // ---- matrix: SPD irreducibly diagonally dominant M-matrix, contrast <= 100
-    int cls = static_cast<int>(t.u(0, 3));
-    int nmax = cls == 0 ? 12 : cls == 1 ? 40 : cls == 2 ? 100 : 200;
-    Graph g; MmatInfo mi; Csr<double> A;
-    if (cls <= 1) { g = gen_graph(t, nmax); A = gen_mmat(t, g, 100.0, true, &mi); }
-    else { Tape sub = expand_tape(t, 8000); g = gen_graph(sub, nmax); A = gen_mmat(sub, g, 100.0, true, &mi); t.mix(sub.h); }
+    GenMat gm = gen_mmat_case(t, {0, 1, 1, 2, 2, 3}, {1, 8, 30, 80}, {12, 40, 100, 200}, 100.0, true);
+    const Graph &g = gm.g; const MmatInfo &mi = gm.mi; const Csr<double> &A = gm.A;
     const ptrdiff_t n = A.n;
 
     // ---- configuration
     AmgCfg cfg;
     cfg.coars = static_cast<int>(t.u(0, 3));
     cfg.relax = static_cast<int>(t.u(0, 8));
-    int ce_mode = static_cast<int>(t.u(0, 5));
-    cfg.coarse_enough = ce_mode == 0 ? static_cast<unsigned>(n) : ce_mode <= 3 ? static_cast<unsigned>(t.u(1, 8)) : static_cast<unsigned>(t.u(1, std::max<ptrdiff_t>(1, n / 3)));
+    int ce_mode = static_cast<int>(t.u(0, 7)); // word 0 -> single level, exact solve
+    cfg.coarse_enough = ce_mode == 0 ? static_cast<unsigned>(n) : ce_mode <= 5 ? static_cast<unsigned>(t.u(1, 8)) : static_cast<unsigned>(t.u(1, std::max<ptrdiff_t>(1, n / 3)));
     if (t.chance(1, 4)) cfg.max_levels = static_cast<unsigned>(t.u(1, 4));
     gen_component_params(t, cfg, true);
 
@@ -90,31 +88,38 @@ static void prop_cycle(Tape &t, Ctx &c) {
         double err = (yv - ref).norm();
         // rounding scale: the coarse direct solve and the residuals formed inside the cycle carry errors proportional to
         // kappa(A), not to n (measured: up to 0.25 u kappa ||B|| ||f|| for n = 8, kappa = 3e4), hence (n + kappa2(A)).
-        double scale = (static_cast<double>(n) + kappa) * U * Bn * (std::abs(alpha) * norm2(f) + std::abs(beta) * norm2(gq));
+        double scale = (16.0 + static_cast<double>(n) + kappa) * U * Bn * (std::abs(alpha) * norm2(f) + std::abs(beta) * norm2(gq));
         double ratio = scale > 0 ? err / scale : (err > 0 ? 1e300 : 0);
         c.label(bucket(ratio, {0.01, 0.1, 1, 4}, "lin-ratio"));
         if (trace_on()) std::cerr << "TRACE lin n=" << n << " kappa=" << kappa << " ratio=" << ratio << " " << cfg.str() << "\n";
-        VF_REQUIRE(ratio <= 16.0, "not linear: ||apply(a f + b g) - (a B f + b B g)|| = " << err << " = " << ratio << " x (n + kappa2(A)) u ||B||_F (|a|||f||+|b|||g||), n=" << n << " kappa2(A)=" << kappa);
+        VF_REQUIRE(ratio <= 32.0, "not linear: ||apply(a f + b g) - (a B f + b B g)|| = " << err << " = " << ratio << " x (16 + n + kappa2(A)) u ||B||_F (|a|||f||+|b|||g||), n=" << n << " kappa2(A)=" << kappa);
     }
 
     // ---- symmetry / positivity (contraction is computed here and asserted last, see below)
-    // Known finding F-agg: plain aggregation divides the Galerkin operator by over_interp = a (default 1.5).  With an
-    // exact coarsest solve a V-cycle then over-corrects the smooth error components by a^(levels-1): the cycle is a
-    // contraction (by induction over the levels, in the A-norm) as long as a^(levels-1) < 2, and beyond that the factor
-    // |1 - a^(levels-1)| is attained on near-null-space components (measured: 1.24 for 3 levels, 2.34 for 4, 3.5 for 5 at
-    // a = 1.5).  A W-cycle squares the coarse error operator and is not affected.  With pre_cycles = 2 the operator
-    // (I - E^2) A^-1 is in addition indefinite there.
-    bool fagg_region = cfg.coars == AGG && cfg.ncycle == 1 && li.levels >= 2 && std::pow(cfg.effective_over_interp(), static_cast<double>(li.levels) - 1.0) >= 2.0;
+    // Known finding F-agg: plain aggregation divides the Galerkin operator by over_interp = a (default 1.5), so every
+    // coarse-grid correction over-shoots by the factor a.  For symmetric cycles the standard induction (A-norm, B_l A_l
+    // has its spectrum in (0, m_l], m_l <= a m_{l+1}) shows that a V-cycle contracts as long as a^(levels-1) m_c < 2 and a
+    // W-cycle as long as a m_c < 2, where m_c = 1 for an exact coarsest solve and, for a relaxed coarsest level,
+    // m_c <= 1 only if the coarsest error operator is positive semi-definite (an even number of sweeps of an
+    // A-self-adjoint smoother, or symmetric Gauss-Seidel); otherwise m_c can approach 2.  Outside that provable region
+    // the clause fails: measured rho = 1.24 (3 levels), 2.34 (4 levels), 3.5 (5 levels) for a = 1.5 with an exact
+    // coarsest solve -- the theoretical |1 - a^(levels-1)| on near-null-space components -- and rho = 1.02 for 2 levels
+    // with a coarsest level relaxed by three Chebyshev(1) sweeps.  With pre_cycles = 2 the operator (I - E^2) A^-1 is
+    // in addition indefinite there.  The region is excluded for the contraction clause (and for positivity when
+    // pre_cycles = 2) only; linearity, history independence, symmetry and scaling are asserted inside it as well.
+    double ov = cfg.effective_over_interp();
+    bool coarsest_psd = li.direct || (cfg.relax != GS && (cfg.npre + cfg.npost) % 2 == 0) || (cfg.relax == GS && cfg.npre == cfg.npost);
+    bool fagg_provable = coarsest_psd && (cfg.ncycle >= 2 || std::pow(ov, static_cast<double>(li.levels) - 1.0) < 2.0);
+    bool fagg_region = cfg.coars == AGG && ov > 1.0 && li.levels >= 2 && !fagg_provable;
     double rho = -1, bmin = 1, bmax = 1;
     if (cfg.symmetric_smoother()) {
         if (cfg.npre == cfg.npost) {
             double asym = (B - B.transpose()).cwiseAbs().maxCoeff();
-            double sratio = asym / ((static_cast<double>(n) + kappa) * U * Bmax); // same kappa-aware scale as linearity
+            double sratio = asym / ((16.0 + static_cast<double>(n) + kappa) * U * Bmax); // same kappa-aware scale as linearity
             c.label(bucket(sratio, {0.01, 0.1, 1, 8}, "sym-ratio"));
             if (trace_on()) std::cerr << "TRACE sym n=" << n << " kappa=" << kappa << " ratio=" << sratio << " " << cfg.str() << "\n";
-            VF_REQUIRE(sratio <= 64.0, "B not symmetric: max|B-B^T| = " << asym << " = " << sratio << " x (n + kappa2(A)) u max|B|, n=" << n << " kappa2(A)=" << kappa);
-            eig_sym(B, bmin, bmax);
-            if (!(fagg_region && cfg.pre_cycles == 2)) VF_REQUIRE(bmin > 0, "B not positive definite: lambda_min(sym B) = " << bmin << " (lambda_max " << bmax << ")");
+            VF_REQUIRE(sratio <= 64.0, "B not symmetric: max|B-B^T| = " << asym << " = " << sratio << " x (16 + n + kappa2(A)) u max|B|, n=" << n << " kappa2(A)=" << kappa);
+            eig_sym(B, bmin, bmax); // asserted below
             double mu_min, mu_max;
             VF_REQUIRE(eig_BA_symmetric(B, Ad, mu_min, mu_max), "Cholesky of A failed");
             rho = std::max(std::abs(1 - mu_min), std::abs(1 - mu_max));
@@ -127,7 +132,14 @@ static void prop_cycle(Tape &t, Ctx &c) {
     }
 
     // ---- scaling by a power of two
-    if (cfg.relax != ILUT) {
+    // Known finding F-rs-abseps: Ruge-Stuben tests entries against the absolute constant 2*DBL_EPSILON, see c02_common.hpp.
+    bool rs_abs = false;
+    if (cfg.relax != ILUT && cfg.coars == RS) {
+        double m = rs_min_offdiag(*amg, std::ldexp(1.0, kexp));
+        rs_abs = m < 8 * 4.440892098500626e-16;
+        if (rs_abs) c.label("rs:offdiag-near-absolute-eps");
+    }
+    if (cfg.relax != ILUT && !(rs_abs && !c.include_known)) {
         double s = std::ldexp(1.0, kexp);
         Csr<double> As = A; for (auto &v : As.val) v *= s;
         auto Ascrs = to_crs<double>(As);
@@ -140,21 +152,29 @@ static void prop_cycle(Tape &t, Ctx &c) {
         c.label("scaling-checked");
     }
 
-    // ---- contraction.  Asserted last: a case inside the known-finding region F-agg is reported as excluded by the
-    // framework, and an excluded case cannot fail any more, so every other clause has to be decided before c.known().
+    // ---- positivity and contraction.  Asserted last: a case inside a known-finding region is reported as excluded by
+    // the framework, and an excluded case cannot fail any more, so every other clause has to be decided before c.known().
     if (cfg.symmetric_smoother()) {
         if (fagg_region) {
             c.label(rho < 1 ? "F-agg-region:rho<1" : "F-agg-region:rho>=1");
             if (c.known("F-agg")) return;
-            VF_REQUIRE(bmin > 0, "B not positive definite: lambda_min(sym B) = " << bmin << " (lambda_max " << bmax << ")");
         }
-        VF_REQUIRE(rho < 1.0 - 1e-10, "no contraction: rho(I - B A) = " << rho << " with " << li.levels << " levels");
+        // Known finding F-smoother-coarse (see c02_common.hpp): the smoother alone diverges on a coarse-level operator
+        if (cfg.relax != GS && li.levels >= 2) {
+            int lvl = -1; double srho = worst_coarse_smoother_rho(*amg, &lvl);
+            c.label(bucket(srho, {0.5, 0.9, 1.0}, "coarse-smoother-rho"));
+            if (srho >= 1.0) { c.desc << " | smoother diverges on level " << lvl << ": rho(I - N A_l) = " << srho; if (c.known("F-smoother-coarse")) return; }
+        }
+        if (cfg.npre == cfg.npost) VF_REQUIRE(bmin > 0, "B not positive definite: lambda_min(sym B) = " << bmin << " (lambda_max " << bmax << ")");
+        VF_REQUIRE(rho < 1.0 - 1e-10, "no contraction: rho(I - B A) = " << std::setprecision(12) << rho << " with " << li.levels << " levels");
     }
+    // the scaling clause was skipped above for F-rs-abseps (it is run when VF_INCLUDE_KNOWN=1); count the case as excluded
+    if (rs_abs && c.known("F-rs-abseps")) return;
 }
 
 static std::vector<Prop> props() {
     return {
-        Prop("cycle_operator", prop_cycle, 150, 1500, 100, 5, {1}, 4, 16),
+        Prop("cycle_operator", prop_cycle, 4000, 40000, 100, 2, {1}, 4, 16),
     };
 }
 static std::vector<Enum> enums() { return {}; }
